@@ -29,16 +29,20 @@ pub enum Delay {
     HalfT,
     TMinusHalfMs,
     T,
+    /// 11/12 of the timeout
+    NearT,
 }
 
 impl Delay {
-    fn ns(&self) -> u64 {
+    fn ns(&self, t_ms: u64) -> u64 {
+        let t_ns = t_ms * 1_000_000;
         match self {
             Delay::None => 0,
-            Delay::QuarterT => T_NS / 4,
-            Delay::HalfT => T_NS / 2,
-            Delay::TMinusHalfMs => T_NS - 500_000,
-            Delay::T => T_NS,
+            Delay::QuarterT => t_ns / 4,
+            Delay::HalfT => t_ns / 2,
+            Delay::TMinusHalfMs => t_ns - 500_000,
+            Delay::T => t_ns,
+            Delay::NearT => t_ns / 12 * 11,
         }
     }
 }
@@ -56,6 +60,8 @@ pub struct QScenario {
     /// notification it has just sent finds the queue empty again (a receiver is woken for
     /// nothing, possibly several times during one call)
     pub churn: Vec<(Delay, bool)>,
+    /// the timeout of the pop_timeout calls, and the unit of the delays (default T_MS)
+    pub t_ms: u64,
 }
 
 impl QScenario {
@@ -66,7 +72,7 @@ impl QScenario {
             "unblocks": self.unblocks.iter().map(|d| format!("{:?}", d)).collect::<Vec<_>>(),
             "consumers_first": self.consumers_first,
             "churn": self.churn.iter().map(|(d, u)| json!([format!("{:?}", d), u])).collect::<Vec<_>>(),
-            "T_ms": T_MS,
+            "T_ms": self.t_ms,
         })
     }
     pub fn from_json(v: &Value) -> QScenario {
@@ -80,6 +86,7 @@ impl QScenario {
             "QuarterT" => Delay::QuarterT,
             "HalfT" => Delay::HalfT,
             "TMinusHalfMs" => Delay::TMinusHalfMs,
+            "NearT" => Delay::NearT,
             _ => Delay::T,
         };
         QScenario {
@@ -88,6 +95,7 @@ impl QScenario {
             unblocks: v["unblocks"].as_array().map(|a| a.iter().map(|d| delay(d.as_str().unwrap_or(""))).collect()).unwrap_or_default(),
             consumers_first: v["consumers_first"].as_bool().unwrap_or(false),
             churn: v["churn"].as_array().map(|a| a.iter().map(|p| (delay(p[0].as_str().unwrap_or("")), p[1].as_bool().unwrap_or(false))).collect()).unwrap_or_default(),
+            t_ms: v["T_ms"].as_u64().unwrap_or(T_MS),
         }
     }
 }
@@ -126,6 +134,7 @@ fn blocked_calls(o: &QObs) -> Vec<(usize, usize, String)> {
 }
 
 pub fn body(sc: QScenario, obs: Arc<Mutex<QObs>>) {
+    let t_ms = sc.t_ms;
     // std's Condvar may return from a wait that nobody notified: offered as a deviation
     ctl::spurious(crate::l2::spurious_now());
     let q: Arc<MessagesQueue<u32>> = MessagesQueue::with_capacity(8);
@@ -149,7 +158,7 @@ pub fn body(sc: QScenario, obs: Arc<Mutex<QObs>>) {
                 let r = match call {
                     Call::Pop => q.pop(),
                     Call::TryPop => q.try_pop(),
-                    Call::PopTimeout => q.pop_timeout(Duration::from_millis(T_MS)),
+                    Call::PopTimeout => q.pop_timeout(Duration::from_millis(t_ms)),
                 };
                 let w1 = ctl::my_blocking_ops();
                 obs.lock().unwrap().calls[slot].returned = Some((r, ctl::clock_ns(), w1 - w0));
@@ -168,7 +177,7 @@ pub fn body(sc: QScenario, obs: Arc<Mutex<QObs>>) {
         let (q, d) = (q.clone(), *d);
         ps.push(thread::spawn_named(Some(format!("producer{}", pi)), move || {
             if d != Delay::None {
-                ctl::sleep(Duration::from_nanos(d.ns()));
+                ctl::sleep(Duration::from_nanos(d.ns(t_ms)));
             }
             for id in ids {
                 q.push(id);
@@ -180,7 +189,7 @@ pub fn body(sc: QScenario, obs: Arc<Mutex<QObs>>) {
         let (q, d) = (q.clone(), *d);
         ps.push(thread::spawn_named(Some(format!("unblocker{}", ui)), move || {
             if d != Delay::None {
-                ctl::sleep(Duration::from_nanos(d.ns()));
+                ctl::sleep(Duration::from_nanos(d.ns(t_ms)));
             }
             q.unblock();
         }));
@@ -199,7 +208,7 @@ pub fn body(sc: QScenario, obs: Arc<Mutex<QObs>>) {
         ps.push(thread::spawn_named(Some("churner".into()), move || {
             for (k, (d, unb)) in churn.iter().enumerate() {
                 if *d != Delay::None {
-                    ctl::sleep(Duration::from_nanos(d.ns()));
+                    ctl::sleep(Duration::from_nanos(d.ns(t_ms)));
                 }
                 if *unb {
                     q.unblock();
@@ -230,7 +239,7 @@ pub fn body(sc: QScenario, obs: Arc<Mutex<QObs>>) {
         o.blocked1 = blocked_calls(&o);
     }
     // let every timed wait expire (twice the timeout is the documented maximum)
-    ctl::sleep(Duration::from_millis(3 * T_MS));
+    ctl::sleep(Duration::from_millis(4 * t_ms));
     ctl::settle();
     {
         let snap = q.verif_snapshot();
@@ -256,6 +265,7 @@ pub fn body(sc: QScenario, obs: Arc<Mutex<QObs>>) {
 
 /// which = "C07" or "C17": the clauses of that property
 pub fn judge(sc: &QScenario, o: &QObs, res: &RunResult, which: &str) -> Vec<(String, String)> {
+    let (t_ms, t_ns) = (sc.t_ms, sc.t_ms * 1_000_000);
     let mut f: Vec<(String, String)> = Vec::new();
     for p in &res.panics {
         f.push(("panic".into(), format!("{} at {}", p.message, p.location)));
@@ -344,7 +354,7 @@ pub fn judge(sc: &QScenario, o: &QObs, res: &RunResult, which: &str) -> Vec<(Str
                 .iter()
                 .filter(|c| c.kind == "PopTimeout")
                 .filter(|c| match c.returned {
-                    Some((None, t, _)) => t - c.entered_ns < T_NS - 1_000_000,
+                    Some((None, t, _)) => t - c.entered_ns < t_ns - 1_000_000,
                     _ => false,
                 })
                 .count();
@@ -403,8 +413,8 @@ pub fn judge(sc: &QScenario, o: &QObs, res: &RunResult, which: &str) -> Vec<(Str
             if c.kind == "PopTimeout" {
                 if let Some((v, t, _)) = c.returned {
                     let el = t - c.entered_ns;
-                    if v.is_none() && !timer_deviation && el > 2 * T_NS {
-                        f.push(("recv-timeout-too-late".into(), format!("pop_timeout({} ms) returned empty after {} ns", T_MS, el)));
+                    if v.is_none() && !timer_deviation && el > 2 * t_ns {
+                        f.push(("recv-timeout-too-late".into(), format!("pop_timeout({} ms) returned empty after {} ns", t_ms, el)));
                     }
                 }
             }
@@ -414,8 +424,8 @@ pub fn judge(sc: &QScenario, o: &QObs, res: &RunResult, which: &str) -> Vec<(Str
             for c in &o.calls {
                 if c.kind == "PopTimeout" {
                     if let Some((None, t, _)) = c.returned {
-                        if t - c.entered_ns < T_NS - 1_000_000 {
-                            f.push(("recv-timeout-too-early".into(), format!("pop_timeout({} ms) returned empty after {} ns without any unblock", T_MS, t - c.entered_ns)));
+                        if t - c.entered_ns < t_ns - 1_000_000 {
+                            f.push(("recv-timeout-too-early".into(), format!("pop_timeout({} ms) returned empty after {} ns without any unblock", t_ms, t - c.entered_ns)));
                         }
                     }
                 }
@@ -471,6 +481,28 @@ fn churn_scenarios(which: &str, tier: Tier) -> Vec<QScenario> {
         churns.push(vec![(Delay::HalfT, false), (Delay::HalfT, false), (Delay::HalfT, false)]);
         churns.push(vec![(q, true), (q, true), (q, true)]);
     }
+    // the same with timeouts whose arithmetic crosses unit boundaries (whole seconds and
+    // sub-second parts, minutes): futile wake-ups late in each wait
+    if which == "C17" {
+        let near = Delay::NearT;
+        for t_ms in if tier == Tier::Thorough { vec![1_200u64, 2_500, 61_000, 3_600_000] } else { vec![1_200u64, 61_000] } {
+            for r in [vec![vec![Call::PopTimeout]], vec![vec![Call::PopTimeout], vec![Call::Pop]]] {
+                for c in [
+                    vec![(near, false)],
+                    vec![(near, false), (near, false)],
+                    vec![(near, true), (near, false)],
+                    vec![(Delay::HalfT, false), (near, false)],
+                    vec![(near, false), (Delay::HalfT, false)],
+                    vec![(Delay::QuarterT, false), (Delay::QuarterT, false), (Delay::QuarterT, false)],
+                ] {
+                    v.push(QScenario { consumers: r.clone(), producers: vec![], unblocks: vec![], consumers_first: true, churn: c, t_ms });
+                }
+                // and without any wake-up at all, and with a request near the end
+                v.push(QScenario { consumers: r.clone(), producers: vec![], unblocks: vec![], consumers_first: true, churn: vec![], t_ms });
+                v.push(QScenario { consumers: r.clone(), producers: vec![(near, 1)], unblocks: vec![], consumers_first: true, churn: vec![], t_ms });
+            }
+        }
+    }
     for r in &receivers {
         for c in &churns {
             for late in [None, Some(Delay::T)] {
@@ -483,6 +515,7 @@ fn churn_scenarios(which: &str, tier: Tier) -> Vec<QScenario> {
                     unblocks: vec![],
                     consumers_first: true,
                     churn: c.clone(),
+                    t_ms: T_MS,
                 });
             }
         }
@@ -531,6 +564,7 @@ pub fn scenarios_c07(tier: Tier) -> Vec<QScenario> {
                         unblocks: vec![Delay::HalfT; u],
                         consumers_first: first,
                         churn: vec![],
+                        t_ms: T_MS,
                     });
                 }
             }
@@ -554,6 +588,7 @@ pub fn scenarios_c17(tier: Tier) -> Vec<QScenario> {
                         unblocks: vec![d; u],
                         consumers_first: first,
                         churn: vec![],
+                        t_ms: T_MS,
                     });
                 }
             }
@@ -578,6 +613,7 @@ pub fn scenarios_c17(tier: Tier) -> Vec<QScenario> {
                     unblocks: vec![Delay::None; u],
                     consumers_first: false,
                     churn: vec![],
+                    t_ms: T_MS,
                 });
             }
         }
@@ -608,6 +644,7 @@ pub fn scenarios_c17(tier: Tier) -> Vec<QScenario> {
                             unblocks: vec![d; u],
                             consumers_first: first,
                         churn: vec![],
+                        t_ms: T_MS,
                         });
                     }
                 }
@@ -698,7 +735,7 @@ pub fn rule_text(which: &str, tier: Tier, n: usize) -> String {
         "1..3 blocked recv callers x 1..3 unblock calls (exactly min(u,c) must be released); every multiset of 1..2 receiver programs over {pop, pop_timeout(T), try_pop} x 0..1 queued element x 1..2 unblock calls issued at {0, T/2, T-0.5ms, T} x receivers blocked first or racing"
     };
     format!(
-        "real MessagesQueue<u32>, T = {} ms virtual; {}; plus churn scenarios (a thread that pushes or unblocks and at once takes the element back with try_pop, 1..3 times (thorough: 4) at T/4..T/2 intervals, so that blocked receivers {{recv_timeout, recv, two calls, pairs}} are woken for nothing several times during one call); {} scenarios, each explored for ALL schedules with at most {} deviations (a preemption, an early timeout, an unusual notify_one wake-up, a SPURIOUS return from a condition-variable wait, or a notified timed wait that is scheduled only after its deadline (LATE) costs 1; choosing among the runnable threads when the running one blocks is free for <= 3 threads [chess] and costs 1 otherwise [strict]), bounds iterated from 0; every execution judged at quiescence (conservation, exactly-once, per-producer order, no element or unblock token queued while a receiver is blocked, token accounting, try_pop enters no wait, virtual-time bounds); non-trivial = every scenario has >= 2 threads sharing the queue",
+        "real MessagesQueue<u32>, T = {} ms virtual; {}; plus churn scenarios (a thread that pushes or unblocks and at once takes the element back with try_pop, 1..3 times (thorough: 4) at T/4..T/2 intervals, so that blocked receivers {{recv_timeout, recv, two calls, pairs}} are woken for nothing several times during one call; C17 also with timeouts of 1.2 s and 61 s (thorough: 2.5 s, 1 h) and futile wake-ups at 11/12, 1/2, 1/4 of each wait); {} scenarios, each explored for ALL schedules with at most {} deviations (a preemption, an early timeout, an unusual notify_one wake-up, a SPURIOUS return from a condition-variable wait, or a notified timed wait that is scheduled only after its deadline (LATE) costs 1; choosing among the runnable threads when the running one blocks is free for <= 3 threads [chess] and costs 1 otherwise [strict]), bounds iterated from 0; every execution judged at quiescence (conservation, exactly-once, per-producer order, no element or unblock token queued while a receiver is blocked, token accounting, try_pop enters no wait, virtual-time bounds); non-trivial = every scenario has >= 2 threads sharing the queue",
         T_MS, fam, n, if tier == Tier::Thorough { "4 chess / 3 chess / 3 strict (for <= 2 / 3 / more threads sharing the queue)" } else { "2 chess / 2 strict (for <= 3 / more threads sharing the queue)" }
     )
 }
